@@ -24,7 +24,7 @@ PROP = 'C18'
 PROP_FILE = 'Props/C18.v'
 THEOREMS = ['C18_tracker_is_translated', 'C18_tracker_new', 'C18_requests_per_visit', 'C18_requests_per_visit_text_guarded',
             'C18_requests_per_visit_text_refuted', 'C18_visit_ends_in_status', 'C18_tries', 'C18_tries_rule_from_filters',
-            'C18_then_left_alone']
+            'C18_then_left_alone', 'C18_crawl_terminates', 'C18_budget_used_up_means_finished']
 TRUSTED = [
     'harness/translate/filters.py + coq/Lib/MiniPy.v for RedirectTracker and the filters (see C02)',
     'coq/Model/Visit.v: hand-written model of WebSession._process_response/_process_redirect/_process_authentication, '
@@ -46,8 +46,9 @@ LEVEL_TEXT = (
     'final rows are never visited again, after tries+1 check-outs the row is final (C18_tries, C18_then_left_alone), with the retry rule derived from the '
     'translated filters (C18_tries_rule_from_filters). The bound of the property TEXT (follow-ups + 1 + ONE authentication retry) is proved under the guard '
     '"no 307/308 answers or no password" (C18_requests_per_visit_text_guarded) and REFUTED without it (C18_requests_per_visit_text_refuted, finding '
-    'auth-retry-per-repeat-hop). _partial: whole-crawl termination is proved per URL only; the step to the whole table needs the engine model of C01 and is '
-    'carried by the end-to-end runs (every crawl must exit by itself).')
+    'auth-retry-per-repeat-hop). Crawl termination (C18_crawl_terminates, C18_budget_used_up_means_finished): over the rows of a finite site, for an arbitrary scheduler and arbitrary servers, '
+    'visits <= rows*(tries+1) and requests <= that * 2*(max_redirects+1); insertion / de-duplication of discovered URLs is outside this model (C14, C01) and the '
+    'whole-application claim is carried by the end-to-end runs (every crawl must exit by itself).')
 LEVEL_NOTE = ('Trusted: Coq kernel + vm_compute; translator + MiniPy interpreter; the hand-written visit model (tied end to end on every run); '
               'hooks/coprocessors/FTP outside the model. Connection-level failures are observed through dropped connections only.')
 TECHNIQUE = ('Coq proof: translated RedirectTracker proved equal to the model tracker; potential-function induction over the request loop for an arbitrary '
@@ -120,7 +121,8 @@ def gen_item(r, ns, tries, maxr, pw):
         h1[base + 's'] = {'seq': [{'status': 401, 'body': 'a', 'location': base + 'z'}, _redir(code, base + 'b')], 'cycle': True}
         h1[base + 'b'] = _redir(r.choice(REDIRECTS), base + 's')
     elif kind == 'ok':
-        h1[base + 's'] = {'status': r.choice([200, 204]), 'body': 'ok'}
+        st = r.choice([200, 204])
+        h1[base + 's'] = {'status': st, 'body': 'ok' if st == 200 else ''}     # a 204 has no body (bytes after it would poison the connection)
     elif kind == 'notfound':
         h1[base + 's'] = {'status': r.choice([404, 403, 410]), 'body': 'no'}
     elif kind == 'redirect-then-500':
@@ -158,8 +160,10 @@ def gen_crawl(r):
         args += ['--http-user', 'user', '--http-password', 'secret']
     if not strong:
         args.append('--no-strong-redirects')
+    # a crawl that sends more than every bound allows is cut off by the server (runaway loops must not stall the check)
+    cap = n_items * (tries + 1) * 2 * (maxr + 2) + 10
     return {'args': args, 'site': site, 'items': items, 'max_redirect': maxr, 'tries': tries, 'password': pw, 'strong': strong,
-            'pre_hooks': ['harness.fakes.filters_site.install']}
+            'pre_hooks': ['harness.fakes.filters_site.install'], 'kill_at_request': cap}
 
 
 # ----------------------------------------------------------------------------------------------
@@ -234,22 +238,27 @@ def coq_crawl(spec, res, typed, jt, parses):
     hosts = sorted({parses[a.replace('{PORT}', str(port))]['hostname'] for a in spec['args'] if a.startswith('http://')})
     cfg = ('{| c_max_redirects := (%d)%%Z; c_strong_redirects := %s; c_password := %s; c_robots := false; c_content_on_error := false |}' % (
         typed['max_redirect'], c02.cbool(typed['strong_redirects']), c02.cbool(spec['password'])))
-    head = ('let L := %s in let a := %s in let hs := %s in let cfg := %s in let script := %s in\n'
-            '   let J := tab_join %s in let OK := tab_ok %s in\n' % (
-                lib, c02.cargs(typed), c02.clist(hosts, c02.cstr), cfg, script, c02.clist(jrows, lambda x: x),
-                c02.clist(sorted(oks), c02.cstr)))
+    tag = 'k%d' % next(_counter)
+    defs = ('Definition L_%s := %s.\nDefinition a_%s := %s.\nDefinition hs_%s := %s.\nDefinition cfg_%s := %s.\n'
+            'Definition script_%s := %s.\nDefinition J_%s := tab_join %s.\nDefinition OK_%s := tab_ok %s.\n' % (
+                tag, lib, tag, c02.cargs(typed), tag, c02.clist(hosts, c02.cstr), tag, cfg, tag, script, tag,
+                c02.clist(jrows, lambda x: x), tag, c02.clist(sorted(oks), c02.cstr)))
     checks, counts = [], []
     rows = {row['url']: row for row in res['rows']}
     for it in spec['items']:
         start = 'http://h1:%d/%s/s' % (port, it['ns'])
         seq = [_req_url(q) for q in res['requests'] if q['path'].startswith('/%s/' % it['ns'])]
         row = rows.get(start, {'status': 'missing', 'try_count': -1})
-        run = ('run_visits J OK cfg (consult_model L a hs) script %s %d [] {| it_status := ITodo; it_tries := 0 |}' % (
-            c02.cstr(start), spec['tries'] + 3))
-        checks.append('(%s summary_eqb (item_summary (%s)) %s %d%%nat (%d)%%Z)' % (
-            head, run, c02.clist(seq, c02.cstr), STATUS_CODE.get(row['status'], 8), row['try_count'] if row['try_count'] is not None else -1))
-        counts.append('(%s (map count_requests (fst (%s)) ++ [999%%nat])%%list)' % (head, run))
-    return checks, counts
+        run = ('run_visits J_%s OK_%s cfg_%s (consult_model L_%s a_%s hs_%s) script_%s %s %d [] {| it_status := ITodo; it_tries := 0 |}' % (
+            tag, tag, tag, tag, tag, tag, tag, c02.cstr(start), spec['tries'] + 3))
+        checks.append('(summary_eqb (item_summary (%s)) %s %d%%nat (%d)%%Z)' % (
+            run, c02.clist(seq, c02.cstr), STATUS_CODE.get(row['status'], 8), row['try_count'] if row['try_count'] is not None else -1))
+        counts.append('((map count_requests (fst (%s)) ++ [999%%nat])%%list)' % run)
+    return defs, checks, counts
+
+
+import itertools  # noqa: E402
+_counter = itertools.count()
 
 
 def _req_url(q):
@@ -267,11 +276,11 @@ Open Scope N_scope.
 def cases_file(render):
     c02.POOL = {}
     try:
-        checks, counts = render()
+        defs, checks, counts = render()
         pool = ''.join('Definition %s : list N := %s.\n' % (name, c02.cstr_lit(s)) for s, name in c02.POOL.items())
     finally:
         c02.POOL = None
-    return (HEADER + pool + 'Definition checks : list bool := [\n  ' + ';\n  '.join(checks) + '].\n'
+    return (HEADER + pool + defs + 'Definition checks : list bool := [\n  ' + ';\n  '.join(checks) + '].\n'
             'Eval vm_compute in (failing checks).\n'
             'Definition visit_counts : list nat := List.concat [\n  ' + ';\n  '.join(counts) + '].\n'
             'Eval vm_compute in visit_counts.\n')
@@ -285,6 +294,9 @@ def property_on_log(spec, res, visit_counts=None):
     of the request sequence into visits (valid only when the model agreed with the implementation on that item)"""
     viol = []
     M, T = spec['max_redirect'], spec['tries']
+    if res.get('killed'):
+        return [{'why': 'request-cap-exceeded', 'cap': spec.get('kill_at_request'), 'requests': len(res.get('requests', [])),
+                 'last_paths': [q['path'] for q in res.get('requests', [])[-6:]]}]
     if res.get('timed_out') or res.get('port') is None:
         return [{'why': 'crawl-did-not-finish', 'detail': (res.get('stderr_tail') or '')[-300:]}]
     rows = {row['url']: row for row in res['rows']}
@@ -301,6 +313,9 @@ def property_on_log(spec, res, visit_counts=None):
         # visits that sent requests <= tries ; all requests of the URL <= tries * 2 * (max + 1)
         if len(seq) > T * 2 * (M + 1):
             viol.append({'why': 'requests-per-url-exceeded', 'item': it, 'requests': len(seq), 'bound': T * 2 * (M + 1)})
+        elif not _has_status(spec, ns, (401,)) and len(seq) > T * (M + 1):
+            # no 401 in the script of this URL => no authentication retry: at most the initial request + max follow-ups per visit
+            viol.append({'why': 'requests-per-url-exceeded-without-auth', 'item': it, 'requests': len(seq), 'bound': T * (M + 1)})
         if visit_counts and ns in visit_counts:
             vc = [c for c in visit_counts[ns] if c > 0]
             if len(vc) > T:
@@ -317,14 +332,18 @@ def property_on_log(spec, res, visit_counts=None):
     return viol
 
 
-def _has_repeat(spec, ns):
+def _has_status(spec, ns, codes):
     for host in spec['site']:
         for path, page in spec['site'][host].items():
             if path.startswith('/%s/' % ns):
                 for p in (page['seq'] if 'seq' in page else [page]):
-                    if p.get('status') in (307, 308):
+                    if p.get('status') in codes:
                         return True
     return False
+
+
+def _has_repeat(spec, ns):
+    return _has_status(spec, ns, (307, 308))
 
 
 def classify(v):
@@ -336,12 +355,19 @@ def classify(v):
 # ----------------------------------------------------------------------------------------------
 def run_specs(ctx, specs, with_model=True):
     typed = c02.parsed_args([s['args'] for s in specs])
+    results = []
     with ThreadPoolExecutor(max_workers=6) as ex:
-        results = list(ex.map(lambda s: crawl.run_crawl(dict(s, repo=ctx.repo), timeout=120), specs))
+        for i in range(0, len(specs), 12):
+            results += list(ex.map(lambda s: crawl.run_crawl(dict(s, repo=ctx.repo), timeout=60), specs[i:i + 12]))
+            bad = sum(1 for x in results if x.get('timed_out') or x.get('killed'))
+            if bad >= 3:            # runaway crawls: enough evidence, do not stall the check
+                break
+    specs, typed = specs[:len(results)], typed[:len(results)]
     disagreements, violations = [], []
-    good = [(s, res, t) for s, res, t in zip(specs, results, typed) if res.get('port') is not None and not res.get('timed_out')]
+    good = [(s, res, t) for s, res, t in zip(specs, results, typed)
+            if res.get('port') is not None and not res.get('timed_out') and not res.get('killed')]
     for s, res in zip(specs, results):
-        if res.get('port') is None or res.get('timed_out'):
+        if res.get('port') is None or res.get('timed_out') or res.get('killed'):
             for v in property_on_log(s, res):
                 v.update({'spec': _plain_spec(s)})
                 violations.append(v)
@@ -354,12 +380,13 @@ def run_specs(ctx, specs, with_model=True):
             chunk = good[i:i + per]
 
             def render(chunk=chunk):
-                checks, counts = [], []
+                defs, checks, counts = '', [], []
                 for s, res, t in chunk:
-                    c, k = coq_crawl(s, res, t, jt, parses)
+                    d, c, k = coq_crawl(s, res, t, jt, parses)
+                    defs += d
                     checks += c
                     counts += k
-                return checks, counts
+                return defs, checks, counts
             bodies.append(cases_file(render))
             index.append([(gi, it) for gi, (s, _, _) in enumerate(chunk, start=i) for it in s['items']])
         outs = common.coq_eval_many(bodies, par=6)
@@ -398,7 +425,7 @@ def run_specs(ctx, specs, with_model=True):
 
 
 def _plain_spec(s):
-    return {k: s[k] for k in ('args', 'site', 'items', 'max_redirect', 'tries', 'password', 'strong', 'pre_hooks')}
+    return {k: s[k] for k in ('args', 'site', 'items', 'max_redirect', 'tries', 'password', 'strong', 'pre_hooks', 'kill_at_request') if k in s}
 
 
 def pregen(ctx):
@@ -406,8 +433,13 @@ def pregen(ctx):
 
 
 def correspondence(ctx):
+    # the evaluation models import the regenerated Gen/*.v: rebuild them (Props/*.vo does not depend on them)
+    ok, log = common.coq_make(['Model/FilterEval.vo', 'Model/VisitEval.vo'])
+    if not ok:
+        return {'evaluations': 0, 'distinct_nontrivial': 0, 'rule': 'evaluation model does not compile', 'samples': [],
+                'disagreements': [{'coq_error': log[-1500:]}], 'impl_violations': []}
     r = common.rng('c18')
-    n = 40 if not ctx.thorough else 1500
+    n = 40 if not ctx.thorough else 600
     specs = [gen_crawl(r) for _ in range(n)]
     results, disagreements, violations, counts = run_specs(ctx, specs)
     kinds, nontriv, total_items, total_requests = {}, set(), 0, 0
@@ -443,7 +475,7 @@ def correspondence(ctx):
 def search(ctx, disagreements):
     """more crawls, property predicates on the log only (plus the shrunk disagreements themselves)"""
     r = common.rng('c18-search')
-    specs = [d['spec'] for d in disagreements if 'spec' in d][:10] + [gen_crawl(r) for _ in range(120)]
+    specs = [d['spec'] for d in disagreements if 'spec' in d][:10] + [gen_crawl(r) for _ in range(60)]
     _, _, violations, _ = run_specs(ctx, specs, with_model=True)
     return violations
 
